@@ -36,23 +36,23 @@ CHECKS = {
         technique="Coq proof (ring + scatter-kernel slot lemma + sparse table proofs) + extracted-model differential tie",
         ref="6 C02"),
     "C03": dict(
-        text="Coq: LuDecompositionDoolittle is proved in full: for every field, size, sparsity pattern, matrix on that "
-             "pattern and EVERY previous content of L and U, the symbolic phase returns a pattern closed under the fill-in "
-             "rule (C03_doolittle_pattern_closed_under_fill_in) and the numeric phase (Initialize's stream construction fused "
-             "with Decompose's replay, as coded) returns unit-lower L and upper U with L*U = A entry by entry, provided no "
-             "pivot is zero (C03_doolittle_factors_reproduce_A; nested loop invariants + the field identity "
-             "C03_defining_equations_give_LU_eq_A); LuDecompositionDoolittleInPlace likewise, under its documented "
-             "contract that fill-in slots hold zero on entry (C03_doolittle_in_place_factors_reproduce_A); "
-             "LuDecompositionMozartInPlace (right-looking elimination: Schur-complement invariant, pattern closed under its "
-             "fill-in) likewise (C03_mozart_in_place_factors_reproduce_A). LuDecompositionMozart (separate L and U) is "
-             "modelled the same way and tied, not yet proved. Tie: the library's own templates instantiated over the prime "
-             "field Z_p (exact) vs the extracted model over Z_p: patterns and every L/U value per block, all patterns n<=3 "
-             "(quick) / n<=4 (thorough) x 4 algorithms + random n<=8, CSR/CSC x standard/vector L<=4, partial groups, garbage "
-             "prior L/U. Oracle on the implementation: L unit lower, U upper, L*U == A over Z_p, independence from prior contents.",
-        note="PARTIAL: full proofs for Doolittle (and, through C18_lu_decomposition, its JIT twin), DoolittleInPlace and "
-             "MozartInPlace; Mozart (separate storage) is validated by the exact Z_p tie and oracle only. The encoding of the index streams as parallel arrays "
-             "is not modelled (the model fuses construction and replay). Trusted: Coq kernel, extraction, harness, Zp class.",
-        technique="Coq proof (loop invariants over the factorisation, any field) + exact-field differential tie of the real templates",
+        text="Coq: all four decompositions are proved end to end, each with its symbolic phase (the fill-in loops as coded "
+             "return a pattern closed under that algorithm's fill-in rule) and its numeric phase (Initialize's stream "
+             "construction fused with Decompose's replay, as coded): for every field, size, sparsity pattern, matrix on that "
+             "pattern and - for the algorithms with separate storage - EVERY previous content of L and U, the factors are "
+             "unit-lower L and upper U with L*U = A entry by entry, provided no pivot is zero: C03_doolittle_factors_reproduce_A "
+             "and C03_doolittle_in_place_factors_reproduce_A (left-looking: nested loop invariants over rows of U / columns of L), "
+             "C03_mozart_factors_reproduce_A and C03_mozart_in_place_factors_reproduce_A (right-looking: Schur-complement "
+             "invariant), all through the field identity C03_defining_equations_give_LU_eq_A. The in-place algorithms are proved "
+             "under their documented contract that fill-in slots hold zero on entry; the Mozart ones for patterns containing the "
+             "diagonal (they reject others). Tie: the library's own templates instantiated over the prime field Z_p (exact) vs "
+             "the extracted model over Z_p: patterns and every L/U value per block, all patterns n<=3 (quick) / n<=4 (thorough) "
+             "x 4 algorithms + random n<=8, CSR/CSC x standard/vector L<=4, partial groups, large block counts, garbage prior "
+             "L/U. Oracle on the implementation: L unit lower, U upper, L*U == A over Z_p, independence from prior contents.",
+        note="The model is at the level of logical matrix elements: the encoding of the index streams as parallel arrays with "
+             "counts and the storage offsets (C19) are not part of these theorems; the tie compares every stored value. "
+             "Trusted: Coq kernel, extraction, harness, Zp class.",
+        technique="Coq proof (loop invariants over the four factorisations, any field) + exact-field differential tie of the real templates",
         ref="6 C03"),
     "C04": dict(
         text="Coq: for every field, size, triangular patterns and L, U with non-zero diagonal and L*U = A, the modelled "
@@ -63,7 +63,7 @@ CHECKS = {
              "LinearSolver/LinearSolverInPlace templates over Z_p vs extracted model, x per block, same case space as C03 "
              "with random right-hand sides, row-major and grouped dense vectors, padding rows holding garbage. Oracle: "
              "A*x == b over Z_p on the implementation.",
-        note="Premise L*U = A comes from C03: proved there for Doolittle, DoolittleInPlace and MozartInPlace, tied for Mozart. "
+        note="Premise L*U = A comes from C03, proved there for all four decompositions. "
              "Trusted: Coq kernel, extraction, harness, Zp class.",
         technique="Coq proof (induction over substitution rows, any field) + exact-field differential tie",
         ref="6 C04"),
